@@ -543,7 +543,7 @@ func (e *Exec) stepSlice(fr *frame, st *State, in *ssa.Slice) {
 		mx := opt(in.Max, slCap(x.T))
 		e.oblige(fr, st, "slice", "slice bounds in range", pos, and(le("0", lo), le(lo, hi), le(hi, mx), le(mx, slCap(x.T))))
 		res := mkSlice(slRef(x.T), add(slOff(x.T), lo), sub(hi, lo), sub(mx, lo))
-		if lo != "0" {
+		if lo != "0" || e.uses("SUBSLICE-PREFIX") {
 			// element j of s[lo:hi] is element lo+j of s, in every heap
 			rc := e.ctx.fresh("subslice", sSlice)
 			e.ctx.assume(eq(rc, res))
